@@ -17,17 +17,21 @@ Inductive kind :=
 (* Python types of the values that can reach a repr()/ascii() splice, as far as the generator's
    source guards it (isinstance / type(..) in tests recognised by K10) or the API declares it
    (aliases, keys, discriminator fields and enum member names are str) *)
-Inductive vty := TStr | TBytes | TInt | TBool | TNone | TFloat | TTuple | TAny.
+Inductive vty := TStr | TBytes | TInt | TBool | TNone | TFloat | TTuple | TAny
+                | TStrSub | TBytesSub | TIntSub.  (* isinstance guard: instances of SUBCLASSES too (their __repr__ may be overridden) *)
 
 (* repr() of these is a literal of the language (TFloat: finite floats; their repr is digits,
    sign, point and exponent only - not modelled here) *)
 Definition literal_kind (t: vty) : bool :=
-  match t with TStr | TBytes | TInt | TBool | TNone | TFloat => true | TTuple | TAny => false end.
+  match t with TStr | TBytes | TInt | TBool | TNone | TFloat => true | _ => false end.
+(* weaker: also admits the sub-class kinds; sound only for values whose type is exactly the builtin *)
+Definition literal_kind_sub (t: vty) : bool :=
+  match t with TTuple | TAny => false | _ => true end.
 
 Definition vty_eqb (a b: vty) : bool :=
   match a, b with
   | TStr, TStr | TBytes, TBytes | TInt, TInt | TBool, TBool | TNone, TNone
-  | TFloat, TFloat | TTuple, TTuple | TAny, TAny => true
+  | TFloat, TFloat | TTuple, TTuple | TAny, TAny | TStrSub, TStrSub | TBytesSub, TBytesSub | TIntSub, TIntSub => true
   | _, _ => false
   end.
 
@@ -77,16 +81,21 @@ Definition after_ident_ok (a: list N) : bool :=
   | c :: _ => negb (is_ident_char c)
   end.
 
-Definition types_ok (s: site) : bool :=
+Definition types_ok_gen (lk: vty -> bool) (s: site) : bool :=
   match s_kind s with
-  | KRepr | KAscii => negb (match s_types s with [] => true | _ => false end) && forallb literal_kind (s_types s)
+  | KRepr | KAscii => negb (match s_types s with [] => true | _ => false end) && forallb lk (s_types s)
   | _ => true
   end.
+Definition types_ok := types_ok_gen literal_kind_sub.        (* partial: exact builtin values *)
+Definition types_ok_full := types_ok_gen literal_kind.       (* full: whatever passes the guard *)
 
 Definition site_ok (s: site) : bool :=
   kind_ok (s_kind s) && before_ok (codes (s_before s)) && after_ok (codes (s_after s))
   && match s_kind s with KGuardedIdent => after_ident_ok (codes (s_after s)) | _ => true end
   && types_ok s.
+
+(* full strength: the guards admit no instance of a subclass either *)
+Definition site_ok_full (s: site) : bool := site_ok s && types_ok_full s.
 
 (* the text the generator emits for the data string [d] at a site of kind k *)
 Definition site_text (k: kind) (p: N -> bool) (d: str) : list N :=
